@@ -34,6 +34,7 @@ class ExcInfo(NamedTuple):
     origin: str  # explicit | assert | none-deref | lib | env | type-none
     site: str
     detail: str = ""
+    func: str = ""
 
 
 class Event(NamedTuple):
@@ -217,6 +218,7 @@ class Interp:
         self.exact_fields: set[str] = set()
         self._relpath: dict[str, str] = {}
         self.try_stack: list[list[str]] = []
+        self.track_stale = False
         self.nonsticky_tags: set[str] = {"remote_cfg.max_file_segment_len"}
         self.env_uncaught: dict[tuple, int] = {}
         self.zero_fields: set[str] = set()  # integer fields whose value 0 is kept apart from "some integer"
@@ -508,10 +510,26 @@ class Interp:
 
     def _for_over(self, s, itv, st, fr, ex, flow, nxt):
         items, lo, open_ended = self._iter_items(itv, self.site(fr, s))
+        ikey = None
+        if open_ended and isinstance(itv, (UnkIter, Sym)):
+            # the same unknown collection has the same number of elements each time it is iterated
+            # on one path (e.g. validate-all-then-handle-all over one list of segment requests)
+            ikey = "iter:" + repr(itv)
+            known = st.mon.get(ikey)
+            if known is not None:
+                items = items[:known]
+                lo = len(items)
+                open_ended = False
         cur = [st]
         for i, item in enumerate(items):
             if i >= lo:
-                nxt.extend(cur)  # the iterable may end here
+                if ikey is not None:
+                    for c in cur:
+                        c2 = c.fork()
+                        c2.set_mon(ikey, i)
+                        nxt.append(c2)
+                else:
+                    nxt.extend(cur)  # the iterable may end here
             body_in = []
             for c in cur:
                 body_in.extend(self.assign(s.target, item, c, fr, ex))
@@ -523,10 +541,34 @@ class Interp:
                 break
         if open_ended and cur:
             self.assume(f"iteration over an unknown collection explored up to {len(items)} elements: {self.site(fr, s)}")
+            if ikey is not None:
+                cur2 = []
+                for c in cur:
+                    c2 = c.fork()
+                    c2.set_mon(ikey, len(items))
+                    cur2.append(c2)
+                cur = cur2
         nxt.extend(cur)
 
     def s_With(self, s, st, fr, ex, flow, nxt):
-        raise AnalysisError(f"with-statement reached by the interpreter at {self.site(fr, s)} (host I/O in handler code?)")
+        # context managers in handler code are host file objects (C16 reports them); they are
+        # modelled as opaque values so that the other analyses still cover the code
+        cur = [st]
+        for it in s.items:
+            nx = []
+            for c in cur:
+                for v, c2 in self.eval(it.context_expr, c, fr, ex):
+                    if it.optional_vars is not None:
+                        nx.extend(self.assign(it.optional_vars, v, c2, fr, ex))
+                    else:
+                        nx.append(c2)
+            cur = nx
+        if cur:
+            f2 = self.exec_block(s.body, dedup(cur), fr, ex)
+            nxt.extend(f2.normal)
+            flow.rets.extend(f2.rets)
+            flow.brk.extend(f2.brk)
+            flow.cont.extend(f2.cont)
 
     def s_FunctionDef(self, s, st, fr, ex, flow, nxt):
         raise AnalysisError(f"nested function unsupported at {self.site(fr, s)}")
@@ -601,6 +643,24 @@ class Interp:
             return [st2]
         raise AnalysisError(f"attribute store on {ov!r} at {site}")
 
+    # ------------------------------------------------------------------ stale-value taint (C11)
+    def stale_use(self, vals: tuple, what: str, st: Store, site: str) -> Store:
+        """records the use of a value marked E('$STALE', field): a read of state left over from an
+        earlier transaction"""
+        if not self.track_stale:
+            return st
+        hit = [v.name for v in vals if isinstance(v, E) and v.cls == "$STALE"]
+        if not hit:
+            for v in vals:
+                if isinstance(v, (Tup, Lst, Rec, Pdu)) and "$STALE." in repr(v):
+                    hit.append(repr(v)[:60])
+        if not hit:
+            return st
+        s2 = st.fork()
+        for h in hit:
+            self.event(s2, "stale-use", h, (what,), site)
+        return s2
+
     # ------------------------------------------------------------------ truth / compare
     def force(self, v: Any, st: Store) -> list[tuple[Any, Store]]:
         if not isinstance(v, FSym):
@@ -630,6 +690,9 @@ class Interp:
             return [(True, st)]
         if isinstance(v, bool):
             return [(v, st)]
+        if isinstance(v, E) and v.cls == "$STALE":
+            st = self.stale_use((v,), "tested", st, self.site(fr, n))
+            return self.fork_bool(("truth", v), st)
         if isinstance(v, int):
             return [(v != 0, st)]
         if isinstance(v, (str, bytes)):
@@ -683,9 +746,54 @@ class Interp:
             out.append((d, s2))
         return out
 
+    def bounds(self, form: tuple, st: Store) -> tuple:
+        """interval known for the linear form: the recorded fact, implicit bounds, and what follows
+        from adding/subtracting two recorded facts (one bound-propagation step, no solver)"""
+        lb, ub = st.facts.get(form, (None, None))
+        ilb, iub = self._implicit_bounds(form)
+        lb = ilb if lb is None else (lb if ilb is None else max(lb, ilb))
+        ub = iub if ub is None else (ub if iub is None else min(ub, iub))
+        if len(st.facts) + 1 < 2:
+            return lb, ub
+        tgt = dict(form)
+        known = list(st.facts.items())
+        # implicit facts for the single atoms of the target
+        for a, _c in form:
+            f1 = ((a, 1),)
+            if f1 not in st.facts:
+                ib = self._implicit_bounds(f1)
+                if ib != (None, None):
+                    known.append((f1, ib))
+        for fa, (la, ua) in known:
+            for sa in (1, -1):
+                rest = dict(tgt)
+                for a, c in fa:
+                    rest[a] = rest.get(a, 0) - sa * c
+                rest = {a: c for a, c in rest.items() if c != 0}
+                # bounds of sa*A
+                alo, ahi = (la, ua) if sa == 1 else (None if ua is None else -ua, None if la is None else -la)
+                if not rest:
+                    blo, bhi = 0, 0
+                else:
+                    items = sorted(rest.items(), key=lambda x: repr(x[0]))
+                    sb = 1 if items[0][1] > 0 else -1
+                    fb = tuple((a, c * sb) for a, c in items)
+                    fbv = st.facts.get(fb)
+                    if fbv is None:
+                        fbv = self._implicit_bounds(fb)
+                        if fbv == (None, None):
+                            continue
+                    lb_, ub_ = fbv
+                    blo, bhi = (lb_, ub_) if sb == 1 else (None if ub_ is None else -ub_, None if lb_ is None else -lb_)
+                if alo is not None and blo is not None:
+                    lb = alo + blo if lb is None else max(lb, alo + blo)
+                if ahi is not None and bhi is not None:
+                    ub = ahi + bhi if ub is None else min(ub, ahi + bhi)
+        return lb, ub
+
     def ask_ge(self, form: tuple, k: int, st: Store) -> list[tuple[bool, Store]]:
         """L >= k for the linear form L (atoms part), using and refining the interval fact"""
-        lb, ub = st.facts.get(form, self._implicit_bounds(form))
+        lb, ub = self.bounds(form, st)
         if lb is not None and lb >= k:
             return [(True, st)]
         if ub is not None and ub < k:
@@ -698,7 +806,7 @@ class Interp:
         return [(True, t), (False, f)]
 
     def ask_eq(self, form: tuple, k: int, st: Store) -> list[tuple[bool, Store]]:
-        lb, ub = st.facts.get(form, self._implicit_bounds(form))
+        lb, ub = self.bounds(form, st)
         if (lb is not None and lb > k) or (ub is not None and ub < k):
             return [(False, st)]
         if lb is not None and ub is not None and lb == ub == k:
@@ -723,6 +831,11 @@ class Interp:
         if len(form) == 1 and form[0][1] == 1:
             a = form[0][0]
             if a and a[0] == "app" and a[1] == "len":
+                return (0, None)
+            # unsigned fields of an inbound PDU
+            if a and a[0] == "a" and a[1] in ("pkt.offset", "pkt.file_size", "pkt.start_of_scope", "pkt.end_of_scope"):
+                return (0, None)
+            if a and a[0] == "idx" and "pkt.segment_requests" in repr(a):
                 return (0, None)
         return (None, None)
 
@@ -765,6 +878,9 @@ class Interp:
                     out.extend(self.compare(op, a2, b2, s3, fr, n, ex))
             return out
         o = type(op).__name__
+        if self.track_stale and (_is_stale(a) or _is_stale(b)):
+            st = self.stale_use((a, b), "compared", st, self.site(fr, n))
+            return self.fork_bool(("cmp-stale", o, repr(a), repr(b)), st)
         if o in ("Is", "IsNot"):
             if a is None or b is None:
                 r = (a is None) and (b is None)
@@ -984,6 +1100,9 @@ class Interp:
 
     def binop(self, op: ast.operator, a: Any, b: Any, st: Store, fr: Frame, n: ast.AST, ex: list) -> list[tuple[Any, Store]]:
         o = type(op).__name__
+        if self.track_stale and (_is_stale(a) or _is_stale(b)):
+            st = self.stale_use((a, b), "arithmetic", st, self.site(fr, n))
+            return [(Sym(("a", "stale-arith")), st)]
         if a is None or b is None:
             ex.append((ExcInfo("TypeError", "type-none", self.site(fr, n), f"arithmetic with None: {norm(n)}"), st))
             return []
@@ -1076,6 +1195,9 @@ class Interp:
             if v.t == ("a", "$self_module"):
                 raise AnalysisError("module value")
             return [(Sym(("attr", v.t, name)), st)]
+        if isinstance(v, E) and v.cls == "$STALE":
+            st = self.stale_use((v,), f"dereferenced (.{name})", st, site)
+            return [(Sym(("attr", ("a", "stale"), name)), st)]
         if isinstance(v, E):
             return [(Sym(("attr", ("a", repr(v)), name)), st)]
         if isinstance(v, (Lst, Tup, Dct, FreeDict, UnkIter, str, bytes)):
@@ -1159,8 +1281,13 @@ class Interp:
             if fv.repo:
                 return self.construct(fv.q, args, kwargs, st, fr, n, ex)
             return self.lib.construct(fv.q, args, kwargs, st, fr, n, ex)
+        if isinstance(fv, ClsV) and not fv.repo and self.track_stale:
+            st = self.stale_use(tuple(args) + tuple(kwargs.values()), f"passed to {fv.q.split('.')[-1]}(...)", st, site)
         if isinstance(fv, LibFn):
             self.calls_lib += 1
+            if self.track_stale:
+                st = self.stale_use(tuple(args) + tuple(kwargs.values()) + ((fv.self_,) if _is_stale(fv.self_) else ()),
+                                    f"passed to {fv.name}(...)", st, site)
             res = self.lib.call(fv, args, kwargs, st, fr, n, ex)
             # write back mutated containers
             out = []
@@ -1186,6 +1313,8 @@ class Interp:
         if self_ is not None and isinstance(self_, Ref):
             cls = st.cls_of(self_)
             if self.lib.is_env_call(cls, fi, st, self_):
+                if self.track_stale:
+                    st = self.stale_use(tuple(args) + tuple(kwargs.values()), f"passed to {fi.name}(...)", st, site)
                 return self.lib.env_call(self_, cls, fi, args, kwargs, st, ex, site)
         if fi.is_abstract:
             raise AnalysisError(f"call of abstract method {fi.qualname} on a non-environment receiver at {site}")
@@ -1241,6 +1370,8 @@ class Interp:
         for ei, s in inner_ex:
             s.loc = saved
             s._key = None
+            if not ei.func:
+                ei = ei._replace(func=fi.qualname)
             ex.append((ei, s))
         return dedup_pairs(out)
 
@@ -1339,6 +1470,10 @@ def is_intish(v: Any) -> bool:
     if isinstance(v, Sym):
         return True
     return False
+
+
+def _is_stale(v: Any) -> bool:
+    return isinstance(v, E) and v.cls == "$STALE"
 
 
 def _finite(v: Any) -> bool:
